@@ -337,24 +337,58 @@ def check(run, prog):
     def where(name):
         return prog.global_def(lm, name)
 
-    ints = set(table("integer_suffixes"))
-    miss = sorted(reference_int_suffixes() - ints)
-    run.ob("R-11.1", "lexer/lexer.py::integer_suffixes", not miss,
-           f"valid integer suffix(es) {miss} are missing: such constants get INVALID_SUFFIX", where("integer_suffixes"),
-           size=len(ints))
-    fl = set(table("float_suffixes"))
-    miss = sorted(REF_FLOAT - fl)
-    run.ob("R-11.1", "lexer/lexer.py::float_suffixes", not miss, f"valid float suffix(es) {miss} are missing",
-           where("float_suffixes"))
-    qp = set(table("quote_prefixes"))
-    miss = sorted(REF_PREFIX - qp)
-    run.ob("R-11.1", "lexer/lexer.py::quote_prefixes", not miss, f"character/string prefix(es) {miss} are missing",
-           where("quote_prefixes"))
-    od, hd = table("octal_digits"), table("hexadecimal_digits")
-    run.ob("R-11.1", "lexer/lexer.py::octal_digits", isinstance(od, str) and set(od) == set("01234567"),
-           f"octal_digits is {od!r}", where("octal_digits"))
-    run.ob("R-11.1", "lexer/lexer.py::hexadecimal_digits", isinstance(hd, str) and set(hd) == set("0123456789abcdefABCDEF"),
-           f"hexadecimal_digits is {hd!r}", where("hexadecimal_digits"))
+    def table_or_none(name):
+        """The folded table when the lexer still has it under that name (imports followed); None otherwise -- the
+        obligation is then decided by interpretation alone."""
+        if prog.global_home(lm, name) is None:
+            run.note(f"R-11.1: no module-level name {name} is visible in lexer/lexer.py; decided by interpretation only")
+            return None
+        return table(name)
+
+    def rejected(method, lexemes, kind):
+        """Lexemes the sub-parser, interpreted on `<lexeme><blank>`, does not turn into one clean token of *kind*."""
+        out = []
+        try:
+            for lx_ in lexemes:
+                sim = LexerSim(prog, lx_ + " \n")
+                res = sim.call(method)
+                tok = res.value if res.kind == "ok" else None
+                if not (tok is not None and getattr(tok, "type", None) == kind and getattr(tok, "value", None) == lx_
+                        and not sim.error_names() and sim.pos == len(lx_)):
+                    out.append((lx_, repr(res), sim.error_names()))
+        except Unsupported as e:
+            raise AnalysisError(f"Lexer.{method} is outside the evaluable subset: {e}")
+        return out
+
+    def show(rej):
+        return "; ".join(f"{l_!r} -> {r_} {e_}" for l_, r_, e_ in rej[:3])
+
+    ref_int = reference_int_suffixes()
+    ints = table_or_none("integer_suffixes")
+    miss = sorted(ref_int - set(ints)) if ints is not None else []
+    rej = rejected("parse_integer_literal", ["1" + x for x in sorted(ref_int)] + ["0x1f" + x for x in ("u", "LL", "i64")], "CONSTANT")
+    run.ob("R-11.1", "lexer/lexer.py::integer_suffixes", not miss and not rej,
+           f"valid integer suffix(es) {miss} are missing: such constants get INVALID_SUFFIX ({show(rej)})", where("integer_suffixes"),
+           size=len(ints) if ints is not None else None, interpreted=len(ref_int) + 3)
+    fl = table_or_none("float_suffixes")
+    miss = sorted(REF_FLOAT - set(fl)) if fl is not None else []
+    rej = rejected("parse_float_literal", [c_ + x for x in sorted(REF_FLOAT) for c_ in ("1.5", "1e3", ".5")], "CONSTANT")
+    run.ob("R-11.1", "lexer/lexer.py::float_suffixes", not miss and not rej,
+           f"valid float suffix(es) {miss} are missing ({show(rej)})", where("float_suffixes"))
+    qp = table_or_none("quote_prefixes")
+    miss = sorted(REF_PREFIX - set(qp)) if qp is not None else []
+    rej = rejected("parse_char_literal", [x + "'a'" for x in sorted(REF_PREFIX | {""})], "CHAR_CONST") + \
+        rejected("parse_string_literal", [x + '"a"' for x in sorted(REF_PREFIX | {""})], "STRING")
+    run.ob("R-11.1", "lexer/lexer.py::quote_prefixes", not miss and not rej,
+           f"character/string prefix(es) {miss} are missing ({show(rej)})", where("quote_prefixes"))
+    od, hd = table_or_none("octal_digits"), table_or_none("hexadecimal_digits")
+    rej = rejected("parse_char_literal", ["'\\" + d + "'" for d in "01234567"], "CHAR_CONST")
+    run.ob("R-11.1", "lexer/lexer.py::octal_digits", (od is None or (isinstance(od, str) and set(od) == set("01234567"))) and not rej,
+           f"octal_digits is {od!r} ({show(rej)})", where("octal_digits"))
+    rej = rejected("parse_char_literal", ["'\\x" + d + "'" for d in "0123456789abcdefABCDEF"], "CHAR_CONST")
+    run.ob("R-11.1", "lexer/lexer.py::hexadecimal_digits",
+           (hd is None or (isinstance(hd, str) and set(hd) == set("0123456789abcdefABCDEF"))) and not rej,
+           f"hexadecimal_digits is {hd!r} ({show(rej)})", where("hexadecimal_digits"))
     rule_escapes(run, prog)
     rule_digit_buckets(run, prog)
 
